@@ -269,6 +269,9 @@ class FaultPolicy:
     def subscr_may_raise(self, node: ast.Subscript) -> bool:
         return False
 
+    def member_may_raise(self, node: ast.Compare) -> bool:
+        return False
+
 
 class Builder:
     def __init__(self, program: Program, policy: Optional[FaultPolicy] = None, max_depth: int = 8,
@@ -970,6 +973,12 @@ class Builder:
             fr = self.expr(e.left, fr, frame)
             for c in e.comparators:
                 fr = self.expr(c, fr, frame)
+            if any(isinstance(op, (ast.In, ast.NotIn)) for op in e.ops) and fr:
+                # membership in a hash container hashes the left operand: a user value may be unhashable
+                n, fr = self.step(fr, 'member', e, inst)
+                if self.policy.member_may_raise(e):
+                    self.g.evs[n].info['may_raise'] = True
+                    self.raise_to([(n, 'exc')], ('exc', ('ext', 'builtins.TypeError')), frame)
             return fr
         if isinstance(e, ast.BinOp):
             fr = self.expr(e.left, fr, frame)
